@@ -75,26 +75,39 @@ func coResume(L *LState) int {
 	}
 	th.Parent = L
 	L.G.CurrentThread = th
+	nargs := L.GetTop() - 1
+	moved := false
+	var setup func()
 	if !th.isStarted() {
 		cf := th.stack.Last()
 		th.currentFrame = cf
 		th.SetTop(0)
-		nargs := L.GetTop() - 1
-		L.XMoveTo(th, nargs)
-		cf.NArgs = nargs
-		th.initCallFrame(cf)
 		th.Panic = panicWithoutTraceback
+		setup = func() {
+			L.XMoveTo(th, nargs)
+			moved = true
+			cf.NArgs = nargs
+			th.initCallFrame(cf)
+		}
 	} else {
-		nargs := L.GetTop() - 1
-		L.XMoveTo(th, nargs)
-		if th.yieldNRet != MultRet {
-			// adjust to the number of results the pending yield expects
-			th.reg.SetTop(th.reg.Top() - nargs + th.yieldNRet)
+		setup = func() {
+			L.XMoveTo(th, nargs)
+			moved = true
+			if th.yieldNRet != MultRet {
+				// adjust to the number of results the pending yield expects
+				th.reg.SetTop(th.reg.Top() - nargs + th.yieldNRet)
+			}
 		}
 	}
-	top := L.GetTop()
-	threadRun(th)
-	return L.GetTop() - top
+	threadRun(th, setup)
+	if !moved {
+		// the coroutine's registry could not take the values: they are still
+		// below the results
+		for i := 0; i < nargs; i++ {
+			L.Remove(2)
+		}
+	}
+	return L.GetTop() - 1
 }
 
 func coRunning(L *LState) int {
